@@ -1,5 +1,6 @@
 // C02 (E-SCHED part): batch span/log processors under generated schedules; see batch_sched.h.
 #include "batch_sched.h"
+#include "reader_sched.h"
 
 const char *vh_property_id = "C02";
 
@@ -47,4 +48,17 @@ VH_TARGET(bsp_sched, 4, "BatchSpanProcessor: non-trivial when a ForceFlush/Shutd
 VH_TARGET(blp_sched, 4, "BatchLogRecordProcessor: non-trivial when a ForceFlush/Shutdown call overlapped (by logical stamps) a produce call or another control call, or an exporter fault/latency was injected; distinct = distinct (scenario, schedule taken)")
 {
   run(c, true);
+}
+
+VH_TARGET(reader_sched, 4, "PeriodicExportingMetricReader: non-trivial when a ForceFlush overlapped an Export by logical stamps, or an exporter fault/latency was injected; distinct = distinct (scenario, schedule taken)")
+{
+  rs::Cfg cfg = rs::gen_cfg(c.rd);
+  c.note(rs::describe(cfg));
+  rs::History h;
+  rs::run_scenario(c, cfg, h);
+  c.note(bs::schedule_text());
+  VH_CHECK(c, !h.rs.leaked_threads, "a thread of the reader was still alive after Shutdown and destruction");
+  rs::common_tags(c, cfg, h);
+  rs::check_control(c, cfg, h);
+  c.nontrivial = rs::flush_overlaps_export(h) || cfg.export_fail_every || !cfg.xflush_result || cfg.export_latency_us;
 }
